@@ -218,11 +218,35 @@ func (g *opGen) sels1(typ string, depth int, root bool) []*TSel {
 				}
 			}
 		}
+		// composite fields under one response key in sibling fragments are merged by the executor and
+		// must agree (same field, same arguments, same sub-selection): later fragments copy the first
+		prev := map[string]*TSel{}
 		for _, pt := range g.cfg.Super.PossibleTypes(typ) {
 			if r.Chance(3, 4) {
 				sub := g.sels(pt, depth-1, false)
-				if len(sub) > 0 {
-					out = append(out, &TSel{On: pt, Sels: sub})
+				var kept []*TSel
+				for _, x := range sub {
+					key := x.Alias
+					if key == "" {
+						key = x.Name
+					}
+					if len(x.Sels) > 0 && x.Name != "" {
+						if p, ok := prev[key]; ok {
+							if p.Name != x.Name {
+								continue
+							}
+							c := *p
+							c.Sels = cloneT(p.Sels)
+							c.Dir = x.Dir
+							x = &c
+						} else {
+							prev[key] = x
+						}
+					}
+					kept = append(kept, x)
+				}
+				if len(kept) > 0 {
+					out = append(out, &TSel{On: pt, Sels: kept})
 				}
 			}
 		}
@@ -287,6 +311,7 @@ func (g *opGen) sels1(typ string, depth int, root bool) []*TSel {
 // Revalue keeps the shape of t and draws new argument values ("varying variable values").
 func Revalue(r *common.Rand, cfg *fedlab.Config, u *fedlab.Universe, t *Template) *Template {
 	g := &opGen{r: r, cfg: cfg, u: u}
+	memo := map[*fedlab.Value]*fedlab.Value{}
 	var walk func(typ string, sels []*TSel) []*TSel
 	walk = func(typ string, sels []*TSel) []*TSel {
 		td := cfg.Super.Type(typ)
@@ -299,7 +324,12 @@ func Revalue(r *common.Rand, cfg *fedlab.Config, u *fedlab.Universe, t *Template
 				f := td.Field(s.Name)
 				c.Args = nil
 				for _, a := range s.Args {
-					c.Args = append(c.Args, TArg{Name: a.Name, Type: a.Type, Val: g.lit(typ, s.Name, a.Name, a.Type, 0)})
+					nv, ok := memo[a.Val]
+					if !ok {
+						nv = g.lit(typ, s.Name, a.Name, a.Type, 0)
+						memo[a.Val] = nv
+					}
+					c.Args = append(c.Args, TArg{Name: a.Name, Type: a.Type, Val: nv})
 				}
 				if f != nil {
 					c.Sels = walk(f.Type.Base(), s.Sels)
@@ -362,6 +392,7 @@ func valueJSON(v *fedlab.Value) *fedlab.J {
 }
 
 type speller struct {
+	memo  map[*fedlab.Value]*fedlab.Value // one spelling per template value (copied sub-selections must stay identical)
 	r     *common.Rand
 	cfg   *fedlab.Config
 	style Style
@@ -474,6 +505,15 @@ func (s *speller) nested(t *fedlab.TypeRef, v *fedlab.Value) *fedlab.Value {
 }
 
 func (s *speller) argVal(a TArg) *fedlab.Value {
+	if v, ok := s.memo[a.Val]; ok {
+		return v
+	}
+	v := s.argVal1(a)
+	s.memo[a.Val] = v
+	return v
+}
+
+func (s *speller) argVal1(a TArg) *fedlab.Value {
 	switch s.style {
 	case StyleVar, StyleRen, StyleShort:
 		return s.asVar(a.Type, a.Val)
@@ -551,7 +591,7 @@ func (s *speller) sels(typ string, ts []*TSel) []*fedlab.Sel {
 
 // Spell renders t in the given style.
 func Spell(r *common.Rand, cfg *fedlab.Config, t *Template, style Style) *Spelled {
-	s := &speller{r: r, cfg: cfg, style: style}
+	s := &speller{r: r, cfg: cfg, style: style, memo: map[*fedlab.Value]*fedlab.Value{}}
 	switch style {
 	case StyleRen:
 		s.names = append([]string(nil), renPool...)
